@@ -84,6 +84,14 @@ Theorem C16_discover_all_count : forall nets x, Forall net_ok nets ->
   count_occ N.eq_dec (discover_all nets) x = length (filter (is_host x) nets).
 Proof. exact discover_all_count. Qed.
 Print Assumptions C16_discover_all_count.
+(* devices already registered and operating are skipped by the workers but enumerated like every
+   other address: whatever is registered, probed + skipped = the estimate, and the probed addresses
+   are exactly the enumerated ones without a registered operating device *)
+Theorem C16_estimate_counts_registered : forall (reg : N -> bool) nets, Forall net_ok nets ->
+  (N.of_nat (length (probed reg nets)) + N.of_nat (length (skipped reg nets)) = estimate nets) /\
+  (forall x, In x (probed reg nets) <-> In x (discover_all nets) /\ reg x = false).
+Proof. exact estimate_counts_registered. Qed.
+Print Assumptions C16_estimate_counts_registered.
 Example C16_example_two_nets :
   discover_all [(2130706433, 30); (2130706689, 31)] = [2130706433; 2130706434; 2130706688]
   /\ estimate [(2130706433, 30); (2130706689, 31)] = 3.
